@@ -2,15 +2,26 @@
 C19 — The local cache is transparent.
 
 Property theorems only (lemmas: `Rustic/Lemmas/Cache.lean`).  The repository is any exact map `be : SpecMap`
-(C20), the cache directory any file-system state (stale, truncated, longer, foreign, temporary and misplaced
-files included); all statements are for every state / id / content / history, `L` arbitrary.
+(C20), the cache directory any file-system state: regular files (stale, truncated, longer, foreign, temporary and
+misplaced files included) **and non-file objects planted at arbitrary paths**: directories (`St.dirs` — e.g. at the entry
+path of an id; no cache operation ever removes one) and symlinks (`St.cache.links`, dangling or to a regular file); all statements are for every
+state / id / content / history, `L` arbitrary.
 
-* `Coh`   — coherence: a properly placed cache file holds exactly the repository file's bytes.
+* `Coh`   — coherence: a properly placed cache file (`cHit`: a regular file, no directory / symlink at that path) holds
+        exactly the repository file's bytes.
 * (1) `ops_preserve_coherence` — every operation through the cached handle keeps `Coh`, and acts on the repository
         exactly like the bare backend.
 * (2) `coherent_read_equiv` / `coherent_ranged_read_equiv` — under `Coh`, reads through the cache return what the bare
-        backend returns.
-* (3) `transparent` — hence whole histories give identical results and identical repository contents.
+        backend returns.  Per file: `entry_coherent_read_equiv` (only the entry of the file read matters),
+        `prefix_entry_ranged_read_equiv` (a *truncated* entry — a prefix of the repository file — never changes a ranged read),
+        `dir_entry_read_equiv` / `dir_entry_ranged_read_equiv` (a directory at the entry path: the cache I/O error is
+        swallowed, the answer is the repository's), `link_entry_read_equiv` / `link_entry_ranged_read_equiv` (a dangling
+        symlink there: a miss), `linked_entry_is_entry` (a symlink to a regular file IS the entry: served, listed, cleaned
+        up), `link_entry_replaced_by_write`, `tmp_link_removed_by_write`, `blocked_parent_*` (a regular
+        file or a dangling symlink where `<type>` or `<type>/<xx>` belongs: nothing is cached, reads from the repository).
+* (3) `transparent` — hence whole histories give identical results and identical repository contents (directories anywhere
+        but at the temp path of a file written); `transparent_content_addressed` — under content addressing (a key always
+        stores the same bytes) with directories ANYWHERE.
 * (4) `list_restores_coherence` — from an **arbitrary** cache directory, a listing leaves only entries whose id the
         repository has, with the repository's size (`no_stale_after_listing`); with honest content (no same-size
         corruption — outside the statement) that is `Coh` for the listed type.
@@ -28,70 +39,235 @@ variable {L : Nat}
 
 /-- A properly placed cache file (for an id of `L` characters) equals the repository file. -/
 def Coh (L : Nat) (s : St) : Prop :=
-  ∀ t id d, id.length = L → cReadFull s.cache t id = some d → s.be (t, id) = some d
+  ∀ t id d, id.length = L → cHit s.dirs s.cache t id = some d → s.be (t, id) = some d
 
-/-! ### (2) reads under coherence -/
+/-- The cache entry of `(t, id)`, if there is one, is the repository file. -/
+def EntryOK (s : St) (t : FileType) (id : Name) : Prop :=
+  ∀ d, cHit s.dirs s.cache t id = some d → s.be (t, id) = some d
 
-theorem coherent_read_equiv {s : St} (hc : Coh L s) (t : FileType) {id : Name} (hl : id.length = L) :
-    (readFull s t id).1 = beReadFull s.be t id ∧ (readFull s t id).2.be = s.be ∧ Coh L (readFull s t id).2 := by
+/-- The cache entry of `(t, id)`, if there is one, is a prefix of the repository file (a truncated copy). -/
+def PrefixOK (s : St) (t : FileType) (id : Name) : Prop :=
+  ∀ d', cHit s.dirs s.cache t id = some d' → ∃ d, s.be (t, id) = some d ∧ d' = d.take d'.length
+
+/-! ### what a read does to the state: nothing, or a cache write of the repository's bytes -/
+
+theorem readFullThrough_fst (s : St) (t : FileType) (id : Name) : (readFullThrough s t id).1 = beReadFull s.be t id := by
+  unfold readFullThrough beReadFull
+  cases s.be (t, id) <;> rfl
+
+theorem readPartialThrough_fst (s : St) (t : FileType) (id : Name) (off len : Nat) :
+    (readPartialThrough s t id off len).1 = beReadPartial s.be t id off len := by
+  unfold readPartialThrough beReadPartial
+  cases s.be (t, id) with
+  | none => rfl
+  | some d => simp only; split <;> rfl
+
+/-- after a read the state is unchanged, or the repository's bytes of that file were written to the cache -/
+def Refilled (s s' : St) (t : FileType) (id : Name) : Prop :=
+  s' = s ∨ ∃ d, s.be (t, id) = some d ∧ s' = { s with cache := cWrite s.dirs s.cache t id d }
+
+theorem readFullThrough_state (s : St) (t : FileType) (id : Name) : Refilled s (readFullThrough s t id).2 t id := by
+  unfold readFullThrough
+  cases hb : s.be (t, id) with
+  | none => exact Or.inl rfl
+  | some d => exact Or.inr ⟨d, hb, rfl⟩
+
+theorem readPartialThrough_state (s : St) (t : FileType) (id : Name) (off len : Nat) :
+    Refilled s (readPartialThrough s t id off len).2 t id := by
+  unfold readPartialThrough
+  cases hb : s.be (t, id) with
+  | none => exact Or.inl rfl
+  | some d => simp only; split <;> exact Or.inr ⟨d, hb, rfl⟩
+
+theorem readFull_state (s : St) (t : FileType) (id : Name) :
+    Refilled s (readFull s t id).2 t id ∧ ((readFull s t id).2 ≠ s → isCacheable t = true) := by
   unfold readFull
   by_cases hcb : isCacheable t = true
   · simp only [hcb, if_true]
-    cases hr : cReadFull s.cache t id with
-    | some d => simp [beReadFull, hc t id d hl hr]; exact hc
+    cases cReadFull s.dirs s.cache t id with
+    | hit d => exact ⟨Or.inl rfl, fun _ => trivial⟩
+    | miss => exact ⟨readFullThrough_state s t id, fun _ => trivial⟩
+    | error => exact ⟨readFullThrough_state s t id, fun _ => trivial⟩
+  · simp only [hcb, Bool.false_eq_true, if_false]
+    exact ⟨Or.inl rfl, fun h => absurd rfl h⟩
+
+theorem readPartial_state (s : St) (t : FileType) (id : Name) (cb : Bool) (off len : Nat) :
+    Refilled s (readPartial s t id cb off len).2 t id ∧
+    ((readPartial s t id cb off len).2 ≠ s → (cb || isCacheable t) = true) := by
+  unfold readPartial
+  by_cases hcb : (cb || isCacheable t) = true
+  · simp only [hcb, if_true]
+    cases cReadPartial s.dirs s.cache t id off len with
+    | hit d => exact ⟨Or.inl rfl, fun _ => trivial⟩
+    | miss => exact ⟨readPartialThrough_state s t id off len, fun _ => trivial⟩
+    | error => exact ⟨readPartialThrough_state s t id off len, fun _ => trivial⟩
+  · simp only [hcb, Bool.false_eq_true, if_false]
+    exact ⟨Or.inl rfl, fun h => absurd rfl h⟩
+
+theorem refilled_be {s s' : St} {t : FileType} {id : Name} (h : Refilled s s' t id) : s'.be = s.be ∧ s'.dirs = s.dirs := by
+  rcases h with h | ⟨d, _, h⟩ <;> subst h <;> exact ⟨rfl, rfl⟩
+
+/-- a read creates no dangling symlink -/
+theorem refilled_dangling {s s' : St} {t : FileType} {id : Name} (h : Refilled s s' t id) {p : Path}
+    (hp : lget s'.cache.links p = some none) : lget s.cache.links p = some none := by
+  rcases h with h | ⟨d, _, h⟩ <;> subst h
+  · exact hp
+  · exact cWrite_dangling hp
+
+/-- writing the repository's own bytes into the cache keeps coherence — whether or not the write gets through -/
+theorem refilled_coh {s s' : St} (hc : Coh L s) {t : FileType} {id : Name} (hl : id.length = L)
+    (h : Refilled s s' t id) : Coh L s' := by
+  rcases h with h | ⟨d, hb, h⟩
+  · subst h; exact hc
+  · subst h
+    intro t' id' d' hl' h'
+    simp only at h'
+    rw [cHit_cWrite s.dirs s.cache hl hl' d] at h'
+    by_cases e : (t' = t ∧ id' = id) ∧ writes s.dirs s.cache t id = true
+    · rw [if_pos e] at h'; cases h'; rw [e.1.1, e.1.2]; exact hb
+    · rw [if_neg e] at h'; exact hc t' id' d' hl' h'
+
+/-! ### (2) reads under coherence -/
+
+/-- **Per file.** A whole-file read through the cache equals the bare backend's as soon as the entry of THAT file is
+sound (absent, a directory, or the repository's bytes) — whatever else the cache directory holds. -/
+theorem entry_coherent_read_equiv {s : St} {t : FileType} {id : Name} (h : EntryOK s t id) :
+    (readFull s t id).1 = beReadFull s.be t id := by
+  unfold readFull
+  by_cases hcb : isCacheable t = true
+  · simp only [hcb, if_true]
+    cases hr : cReadFull s.dirs s.cache t id with
+    | hit d => simp [beReadFull, h d ((cReadFull_hit_iff _ _ _ _ _).1 hr)]
+    | miss => exact readFullThrough_fst s t id
+    | error => exact readFullThrough_fst s t id
+  · simp [hcb]
+
+theorem coherent_read_equiv {s : St} (hc : Coh L s) (t : FileType) {id : Name} (hl : id.length = L) :
+    (readFull s t id).1 = beReadFull s.be t id ∧ (readFull s t id).2.be = s.be ∧ Coh L (readFull s t id).2 :=
+  ⟨entry_coherent_read_equiv (fun d h => hc t id d hl h), (refilled_be (readFull_state s t id).1).1,
+   refilled_coh hc hl (readFull_state s t id).1⟩
+
+theorem take_drop_take (d : Bytes) (n off len : Nat) (h : off + len ≤ n) :
+    ((d.take n).drop off).take len = (d.drop off).take len := by
+  rw [List.drop_take, List.take_take]
+  congr 1
+  omega
+
+/-- **Per file, ranged.** A truncated entry (a prefix of the repository file; in particular an intact one), no entry or a
+directory at the entry path: every non-empty ranged read through the cache equals the bare backend's (the slice, or an
+error past the end) — ranges inside the prefix are served from it, all others fall through to the repository. -/
+theorem prefix_entry_ranged_read_equiv {s : St} {t : FileType} {id : Name} (h : PrefixOK s t id) (cb : Bool)
+    (off : Nat) {len : Nat} (hlen : 0 < len) :
+    (readPartial s t id cb off len).1 = beReadPartial s.be t id off len := by
+  unfold readPartial
+  by_cases hcb : (cb || isCacheable t) = true
+  · simp only [hcb, if_true]
+    cases hh : cHit s.dirs s.cache t id with
     | none =>
-      cases hb : s.be (t, id) with
-      | none => simp [beReadFull, hb]; exact hc
-      | some d =>
-        simp only [beReadFull, hb, true_and]
-        intro t' id' d' hl' h'
-        simp only at h'
-        rw [cReadFull_cWrite s.cache hl hl' d] at h'
-        by_cases e : t' = t ∧ id' = id
-        · simp [e] at h'; subst h'; rw [e.1, e.2]; exact hb
-        · simp [e] at h'; exact hc t' id' d' hl' h'
-  · simp [hcb]; exact hc
+      rcases cReadPartial_of_none hh off hlen with h0 | h0 <;> rw [h0] <;> exact readPartialThrough_fst s t id off len
+    | some d' =>
+      obtain ⟨d, hb, hp⟩ := h d' hh
+      rw [cReadPartial_of_hit hh off hlen]
+      by_cases hr : off + len ≤ d'.length
+      · have hle : d'.length ≤ d.length := by
+          have := congrArg List.length hp
+          rw [List.length_take] at this
+          omega
+        have hr' : off + len ≤ d.length := by omega
+        have hs := take_drop_take d d'.length off len hr
+        rw [← hp] at hs
+        simp only [hr, if_true, beReadPartial, hb, hr', hs]
+      · simp only [hr, if_false]
+        exact readPartialThrough_fst s t id off len
+  · simp [hcb]
 
 /-- Non-empty ranges: the answer through the cache is the bare backend's (slice, or error past the end). -/
 theorem coherent_ranged_read_equiv {s : St} (hc : Coh L s) (t : FileType) {id : Name} (hl : id.length = L)
     (cb : Bool) (off len : Nat) (hlen : 0 < len) :
     (readPartial s t id cb off len).1 = beReadPartial s.be t id off len ∧
     (readPartial s t id cb off len).2.be = s.be ∧ Coh L (readPartial s t id cb off len).2 := by
-  unfold readPartial
-  by_cases hcb : (cb || isCacheable t) = true
-  · simp only [hcb, if_true]
-    have hmiss : ∀ (r : Res Bytes × St),
-        (match s.be (t, id) with
-          | some d =>
-            if off + len ≤ d.length then ((Res.ok ((d.drop off).take len) : Res Bytes), { s with cache := cWrite s.cache t id d })
-            else (Res.err, { s with cache := cWrite s.cache t id d })
-          | none => (Res.err, s)) = r →
-        r.1 = beReadPartial s.be t id off len ∧ r.2.be = s.be ∧ Coh L r.2 := by
-      intro r hr
-      subst hr
-      cases hb : s.be (t, id) with
-      | none => simp [beReadPartial, hb]; exact hc
-      | some d =>
-        have hcoh : Coh L { s with cache := cWrite s.cache t id d } := by
-          intro t' id' d' hl' h'
-          simp only at h'
-          rw [cReadFull_cWrite s.cache hl hl' d] at h'
-          by_cases e : t' = t ∧ id' = id
-          · simp [e] at h'; subst h'; rw [e.1, e.2]; exact hb
-          · simp [e] at h'; exact hc t' id' d' hl' h'
-        by_cases hr : off + len ≤ d.length
-        · simp [beReadPartial, hb, hr]; exact hcoh
-        · simp [beReadPartial, hb, hr]; exact hcoh
-    unfold cReadPartial
-    cases hg : fget s.cache (cpath t id) with
-    | none => simp only; exact hmiss _ rfl
-    | some d =>
-      have hb := hc t id d hl hg
-      by_cases hr : len = 0 ∨ off + len ≤ d.length
-      · have hr' : off + len ≤ d.length := by omega
-        simp [hr, beReadPartial, hb, hr']; exact hc
-      · simp only [hr, if_false]; exact hmiss _ rfl
-  · simp [hcb]; exact hc
+  refine ⟨prefix_entry_ranged_read_equiv ?_ cb off hlen, (refilled_be (readPartial_state s t id cb off len).1).1,
+          refilled_coh hc hl (readPartial_state s t id cb off len).1⟩
+  intro d' h'
+  exact ⟨d', hc t id d' hl h', (List.take_length).symm⟩
+
+/-! ### (2b) a directory (a non-file object) at the entry path
+
+`Cache::read_full` / `read_partial` fail with an I/O error that is not `NotFound`; `CachedBackend` logs it and answers
+from the repository.  The listing clean-up never removes the directory (`dirs_constant`), so this holds for ever. -/
+
+theorem dir_entry_read_equiv {s : St} {t : FileType} {id : Name} (hd : hasDir s.dirs (cpath t id) = true) :
+    (readFull s t id).1 = beReadFull s.be t id :=
+  entry_coherent_read_equiv (fun d h => by rw [cHit_of_dir _ hd] at h; cases h)
+
+theorem dir_entry_ranged_read_equiv {s : St} {t : FileType} {id : Name} (hd : hasDir s.dirs (cpath t id) = true)
+    (cb : Bool) (off : Nat) {len : Nat} (hlen : 0 < len) :
+    (readPartial s t id cb off len).1 = beReadPartial s.be t id off len :=
+  prefix_entry_ranged_read_equiv (fun d h => by rw [cHit_of_dir _ hd] at h; cases h) cb off hlen
+
+/-- quirk (stated, observed on the real code): with a directory at the entry path every read / write of that file
+through the cached handle leaves the temp file `<id>-tmp-` behind (the failed `rename` is not cleaned up). -/
+theorem dir_entry_write_leaves_tmp (dirs : List Path) (c : CD) (t : FileType) (id : Name) (d : Bytes)
+    (hp : parentObj c t id = none) (hd : hasDir dirs (cpath t id) = true) (ht : hasDir dirs (ctmp t id) = false)
+    (hl : lget c.links (ctmp t id) = none) :
+    fget (cWrite dirs c t id d).files (ctmp t id) = some d := by
+  simp [cWrite, hp, hd, ht, hl, fget_fput_same]
+
+/-! ### (2c) a symlink at the entry path
+
+Dangling: for reads and the listing it is like nothing at all (`NotFound`; walkdir reports an error that is only logged);
+the next cache write or removal of that file replaces / removes it.  At the TEMP path it makes one cache write fail, whose
+clean-up removes it.  Resolving to a regular file: **it is a cache entry** — reads follow it, and (fix: `follow_links`) so
+does the listing: `linked_entry_is_entry` puts it under every theorem about entries (`no_stale_after_listing`,
+`list_restores_coherence`, `stale_cache_read_after_listing`: a symlink to a stale copy is cleaned up like a stale file). -/
+
+theorem link_entry_read_equiv {s : St} {t : FileType} {id : Name} (hk : lget s.cache.links (cpath t id) = some none) :
+    (readFull s t id).1 = beReadFull s.be t id :=
+  entry_coherent_read_equiv (fun d h => by rw [cHit_of_link _ hk] at h; cases h)
+
+theorem link_entry_ranged_read_equiv {s : St} {t : FileType} {id : Name}
+    (hk : lget s.cache.links (cpath t id) = some none) (cb : Bool) (off : Nat) {len : Nat} (hlen : 0 < len) :
+    (readPartial s t id cb off len).1 = beReadPartial s.be t id off len :=
+  prefix_entry_ranged_read_equiv (fun d h => by rw [cHit_of_link _ hk] at h; cases h) cb off hlen
+
+/-- a symlink at the entry path that resolves to a regular file holding `b` is the cache entry of that id: served by
+reads (`read_full_serves_any_entry`), listed with size `b.length` (`mem_cList`) and therefore cleaned up by a listing -/
+theorem linked_entry_is_entry (dirs : List Path) (c : CD) {t : FileType} {id : Name} {b : Bytes}
+    (hp : parentObj c t id = none) (hd : hasDir dirs (cpath t id) = false)
+    (hk : lget c.links (cpath t id) = some (some b)) :
+    cHit dirs c t id = some b ∧ ∀ L, isCacheName L id = true → (id, b.length) ∈ cList L dirs c t := by
+  have h : cHit dirs c t id = some b := by simp [cHit, hp, hd, entryBytes, hk]
+  exact ⟨h, fun _ hn => mem_cList hn h⟩
+
+/-- a cache write that gets through puts the bytes at the entry path, whatever was there (a file, a symlink) -/
+theorem link_entry_replaced_by_write (dirs : List Path) (c : CD) {t : FileType} {id : Name} (d : Bytes)
+    (hw : writes dirs c t id = true) : cHit dirs (cWrite dirs c t id d) t id = some d := by
+  rw [cHit_cWrite dirs c (L := id.length) rfl rfl d]; simp [hw]
+
+/-- a dangling symlink at the temp path: the cache write fails once and its clean-up removes the link -/
+theorem tmp_link_removed_by_write (dirs : List Path) (c : CD) {t : FileType} {id : Name} (d : Bytes)
+    (hp : parentObj c t id = none) (hd : hasDir dirs (ctmp t id) = false) (hk : lget c.links (ctmp t id) = some none) :
+    cWrite dirs c t id d = unlink c (ctmp t id) ∧ tmpBlocked dirs (cWrite dirs c t id d) t id = false := by
+  have e : cWrite dirs c t id d = unlink c (ctmp t id) := by simp [cWrite, hp, hd, hk]
+  exact ⟨e, by rw [e]; simp [tmpBlocked, hd, unlink, lget_ldel_same]⟩
+
+/-! ### (2d) a regular file or a dangling symlink where a parent directory (`<type>`, `<type>/<xx>`) belongs
+
+Every cache operation on the ids below fails (`ENOTDIR` / `ENOENT`, `create_dir_all` fails) and is only logged: reads are
+answered from the repository, the cache directory is not touched. -/
+
+theorem blocked_parent_read_equiv {s : St} {t : FileType} {id : Name} (hp : (parentObj s.cache t id).isSome = true) :
+    (readFull s t id).1 = beReadFull s.be t id :=
+  entry_coherent_read_equiv (fun d h => by rw [cHit_of_parent _ hp] at h; cases h)
+
+theorem blocked_parent_ranged_read_equiv {s : St} {t : FileType} {id : Name} (hp : (parentObj s.cache t id).isSome = true)
+    (cb : Bool) (off : Nat) {len : Nat} (hlen : 0 < len) :
+    (readPartial s t id cb off len).1 = beReadPartial s.be t id off len :=
+  prefix_entry_ranged_read_equiv (fun d h => by rw [cHit_of_parent _ hp] at h; cases h) cb off hlen
+
+theorem blocked_parent_cache_untouched (dirs : List Path) (c : CD) {t : FileType} {id : Name}
+    (hp : (parentObj c t id).isSome = true) (d : Bytes) : cWrite dirs c t id d = c ∧ cRemove dirs c t id = c := by
+  simp [cWrite, cRemove, hp]
 
 /-! ### (1) every operation keeps coherence and acts on the repository like the bare backend
 
@@ -101,46 +277,68 @@ cache entry (`NoEntry`).  Both are invariants of the cached handle and part of `
 def cacheOn (cbOf : Key → Bool) (t : FileType) (id : Name) : Bool := cbOf (t, id) || isCacheable t
 
 def NoEntry (L : Nat) (cbOf : Key → Bool) (s : St) : Prop :=
-  ∀ t id, id.length = L → cacheOn cbOf t id = false → cReadFull s.cache t id = none
+  ∀ t id, id.length = L → cacheOn cbOf t id = false → cHit s.dirs s.cache t id = none
 
 def Inv (L : Nat) (cbOf : Key → Bool) (s : St) : Prop := Coh L s ∧ NoEntry L cbOf s
 
+/-- A write-through keeps coherence when the cache write can get through, or there was no entry to go stale, or the
+entry already holds the bytes written: a directory or a dangling symlink at the TEMP path blocks the update of an
+existing entry (`hw`). -/
 theorem coh_cWrite {s : St} (hc : Coh L s) {t : FileType} {id : Name} (hl : id.length = L) {d : Bytes}
+    (hw : tmpBlocked s.dirs s.cache t id = true → ∀ d0, cHit s.dirs s.cache t id = some d0 → d0 = d)
     {be' : SpecMap} (hbe : be' (t, id) = some d) (hoth : ∀ k, k ≠ (t, id) → be' k = s.be k) :
-    Coh L { be := be', cache := cWrite s.cache t id d } := by
+    Coh L { s with be := be', cache := cWrite s.dirs s.cache t id d } := by
   intro t' id' d' hl' h'
   simp only at h' ⊢
-  rw [cReadFull_cWrite s.cache hl hl' d] at h'
+  rw [cHit_cWrite s.dirs s.cache hl hl' d] at h'
   by_cases e : t' = t ∧ id' = id
-  · simp [e] at h'; subst h'; rw [e.1, e.2]; exact hbe
-  · simp [e] at h'
+  · obtain ⟨e1, e2⟩ := e; subst e1; subst e2
+    by_cases hwr : writes s.dirs s.cache t' id' = true
+    · simp [hwr] at h'; subst h'; exact hbe
+    · rw [if_neg (fun h => hwr h.2)] at h'
+      by_cases htmp : tmpBlocked s.dirs s.cache t' id' = true
+      · -- the cache write was blocked at the temp path: the old entry stays, and it holds the bytes written
+        rw [hw htmp d' h']; exact hbe
+      · -- the write did not get through although the temp path is free: a directory sits at the entry path, or a
+        -- non-directory where a parent directory belongs — no entry either way
+        simp only [tmpBlocked, Bool.or_eq_true, not_or, Bool.not_eq_true] at htmp
+        cases hp : parentObj s.cache t' id' with
+        | some b => rw [cHit_of_parent _ (by rw [hp]; rfl)] at h'; cases h'
+        | none =>
+          have hdir : hasDir s.dirs (cpath t' id') = true := by
+            simp only [writes, hp, htmp.1, htmp.2, Option.isNone_none, Bool.not_false, Bool.true_and,
+              Bool.not_eq_eq_eq_not, Bool.not_true] at hwr
+            simpa using hwr
+          rw [cHit_of_dir _ hdir] at h'; cases h'
+  · have e' : ¬((t' = t ∧ id' = id) ∧ writes s.dirs s.cache t id = true) := fun h => e h.1
+    rw [if_neg e'] at h'
     rw [hoth (t', id') (fun h => e (by cases h; exact ⟨rfl, rfl⟩))]
     exact hc t' id' d' hl' h'
 
 theorem noEntry_cWrite {cbOf : Key → Bool} {s : St} (hn : NoEntry L cbOf s) {t : FileType} {id : Name}
     (hl : id.length = L) (hon : cacheOn cbOf t id = true) (d : Bytes) (be' : SpecMap) :
-    NoEntry L cbOf { be := be', cache := cWrite s.cache t id d } := by
+    NoEntry L cbOf { s with be := be', cache := cWrite s.dirs s.cache t id d } := by
   intro t' id' hl' hoff
   simp only
-  rw [cReadFull_cWrite s.cache hl hl' d]
+  rw [cHit_cWrite s.dirs s.cache hl hl' d]
   by_cases e : t' = t ∧ id' = id
   · rw [e.1, e.2, hon] at hoff; cases hoff
-  · simp [e]; exact hn t' id' hl' hoff
+  · have e' : ¬((t' = t ∧ id' = id) ∧ writes s.dirs s.cache t id = true) := fun h => e h.1
+    rw [if_neg e']; exact hn t' id' hl' hoff
+
+theorem refilled_noEntry {cbOf : Key → Bool} {s s' : St} (hn : NoEntry L cbOf s) {t : FileType} {id : Name}
+    (hl : id.length = L) (h : Refilled s s' t id) (hon : s' ≠ s → cacheOn cbOf t id = true) : NoEntry L cbOf s' := by
+  rcases h with h | ⟨d, _, h⟩
+  · subst h; exact hn
+  · by_cases e : s' = s
+    · rw [e]; exact hn
+    · subst h; exact noEntry_cWrite hn hl (hon e) d s.be
 
 theorem read_preserves {cbOf : Key → Bool} {s : St} (hi : Inv L cbOf s) (t : FileType) {id : Name} (hl : id.length = L) :
     (readFull s t id).1 = beReadFull s.be t id ∧ (readFull s t id).2.be = s.be ∧ Inv L cbOf (readFull s t id).2 := by
   obtain ⟨h1, h2, h3⟩ := coherent_read_equiv hi.1 t hl
-  refine ⟨h1, h2, h3, ?_⟩
-  unfold readFull
-  by_cases hcb : isCacheable t = true
-  · simp only [hcb, if_true]
-    cases cReadFull s.cache t id with
-    | some d => exact hi.2
-    | none =>
-      cases s.be (t, id) with
-      | none => exact hi.2
-      | some d => exact noEntry_cWrite hi.2 hl (by simp [cacheOn, hcb]) d s.be
-  · simp [hcb]; exact hi.2
+  refine ⟨h1, h2, h3, refilled_noEntry hi.2 hl (readFull_state s t id).1 (fun h => ?_)⟩
+  simp [cacheOn, (readFull_state s t id).2 h]
 
 theorem ranged_read_preserves {cbOf : Key → Bool} {s : St} (hi : Inv L cbOf s) (t : FileType) {id : Name}
     (hl : id.length = L) (off len : Nat) (hlen : 0 < len) :
@@ -148,32 +346,18 @@ theorem ranged_read_preserves {cbOf : Key → Bool} {s : St} (hi : Inv L cbOf s)
     (readPartial s t id (cbOf (t, id)) off len).2.be = s.be ∧
     Inv L cbOf (readPartial s t id (cbOf (t, id)) off len).2 := by
   obtain ⟨h1, h2, h3⟩ := coherent_ranged_read_equiv hi.1 t hl (cbOf (t, id)) off len hlen
-  refine ⟨h1, h2, h3, ?_⟩
-  unfold readPartial
-  by_cases hcb : (cbOf (t, id) || isCacheable t) = true
-  · simp only [hcb, if_true]
-    have hw : ∀ d be', NoEntry L cbOf { be := be', cache := cWrite s.cache t id d } :=
-      fun d be' => noEntry_cWrite hi.2 hl hcb d be'
-    cases cReadPartial s.cache t id off len with
-    | hit b => exact hi.2
-    | miss =>
-      cases s.be (t, id) with
-      | none => exact hi.2
-      | some d => simp only; split <;> exact hw d s.be
-    | error =>
-      cases s.be (t, id) with
-      | none => exact hi.2
-      | some d => simp only; split <;> exact hw d s.be
-  · simp [hcb]; exact hi.2
+  exact ⟨h1, h2, h3, refilled_noEntry hi.2 hl (readPartial_state s t id _ off len).1
+    (fun h => (readPartial_state s t id _ off len).2 h)⟩
 
 theorem write_preserves {cbOf : Key → Bool} {s : St} (hi : Inv L cbOf s) (t : FileType) {id : Name}
-    (hl : id.length = L) (d : Bytes) :
+    (hl : id.length = L) (d : Bytes)
+    (hw : tmpBlocked s.dirs s.cache t id = true → ∀ d0, cHit s.dirs s.cache t id = some d0 → d0 = d) :
     (writeBytes s t id (cbOf (t, id)) d).be = s.be.write (t, id) d ∧ Inv L cbOf (writeBytes s t id (cbOf (t, id)) d) := by
   refine ⟨rfl, ?_⟩
   unfold writeBytes
   by_cases hcb : (cbOf (t, id) || isCacheable t) = true
   · simp only [hcb, if_true]
-    exact ⟨coh_cWrite hi.1 hl (by simp [SpecMap.write]) (fun k hk => by simp [SpecMap.write, hk]),
+    exact ⟨coh_cWrite hi.1 hl hw (by simp [SpecMap.write]) (fun k hk => by simp [SpecMap.write, hk]),
            noEntry_cWrite hi.2 hl hcb d _⟩
   · simp only [hcb, Bool.false_eq_true, ↓reduceIte]
     have hoff : cacheOn cbOf t id = false := by simpa [cacheOn] using hcb
@@ -194,7 +378,7 @@ theorem remove_preserves {cbOf : Key → Bool} {s : St} (hi : Inv L cbOf s) (t :
     constructor
     · intro t' id' d' hl' h'
       simp only [SpecMap.remove] at h' ⊢
-      rw [cReadFull_cRemove] at h'
+      rw [cHit_cRemove] at h'
       by_cases e : t' = t ∧ id' = id
       · simp [e] at h'
       · simp [e] at h'
@@ -202,7 +386,7 @@ theorem remove_preserves {cbOf : Key → Bool} {s : St} (hi : Inv L cbOf s) (t :
         simp [this]; exact hi.1 t' id' d' hl' h'
     · intro t' id' hl' hoff
       simp only
-      rw [cReadFull_cRemove]
+      rw [cHit_cRemove]
       by_cases e : t' = t ∧ id' = id
       · simp [e]
       · simp [e]; exact hi.2 t' id' hl' hoff
@@ -227,21 +411,71 @@ theorem list_preserves {cbOf : Key → Bool} {s : St} (hi : Inv L cbOf s) (t : F
       exact hi.1 t' id' d' hl' (removeNotInList_sub h')
     · intro t' id' hl' hoff
       simp only
-      cases h : cReadFull (removeNotInList L s.cache t answer) t' id' with
+      cases h : cHit s.dirs (removeNotInList L s.dirs s.cache t answer) t' id' with
       | none => rfl
       | some d => have := removeNotInList_sub h; rw [hi.2 t' id' hl' hoff] at this; cases this
   · simp [hcb]; exact hi
 
 /-- **ops_preserve_coherence**: one step through the cached handle = the same step on the bare backend (same
-observation, same repository), and the invariant is kept. -/
-def OpOK (L : Nat) (cbOf : Key → Bool) : Op → Prop
+observation, same repository), and the invariant is kept.  `dirs`, `c.links`: the directories and dangling symlinks
+planted in the cache directory — arbitrary, except that none sits at the TEMP path of a file that is written through the
+handle (it would block the update of an existing entry; only an overwrite with other bytes — which content addressing
+excludes, see `transparent_content_addressed` — could then be observed; witness in `notes/C19.md`). -/
+def OpOK (L : Nat) (cbOf : Key → Bool) (dirs : List Path) (c : CD) : Op → Prop
   | .read _ id => id.length = L
   | .readPartial t id cb _ len => id.length = L ∧ cb = cbOf (t, id) ∧ 0 < len
-  | .write t id cb _ => id.length = L ∧ cb = cbOf (t, id)
+  | .write t id cb _ => id.length = L ∧ cb = cbOf (t, id) ∧ tmpBlocked dirs c t id = false
   | .remove t id cb => id.length = L ∧ cb = cbOf (t, id)
   | .list _ _ => True
 
-theorem ops_preserve_coherence {cbOf : Key → Bool} {s : St} (hi : Inv L cbOf s) (op : Op) (hop : OpOK L cbOf op) :
+/-- fewer dangling symlinks: still fine -/
+theorem opOK_mono {cbOf : Key → Bool} {dirs : List Path} {c c' : CD}
+    (h : ∀ p, lget c'.links p = some none → lget c.links p = some none)
+    {op : Op} (hop : OpOK L cbOf dirs c op) : OpOK L cbOf dirs c' op := by
+  cases op with
+  | write t id cb d =>
+    refine ⟨hop.1, hop.2.1, ?_⟩
+    have h0 := hop.2.2
+    simp only [tmpBlocked, Bool.or_eq_false_iff, beq_eq_false_iff_ne, ne_eq] at h0 ⊢
+    exact ⟨h0.1, fun hk => h0.2 (h _ hk)⟩
+  | read t id => exact hop
+  | readPartial t id cb off len => exact hop
+  | remove t id cb => exact hop
+  | list t a => exact hop
+
+/-- no operation of the cached handle creates, removes or replaces a directory of the cache directory -/
+theorem dirs_constant (s : St) (op : Op) : (stepC L s op).2.dirs = s.dirs := by
+  cases op with
+  | read t id => exact (refilled_be (readFull_state s t id).1).2
+  | readPartial t id cb off len => exact (refilled_be (readPartial_state s t id cb off len).1).2
+  | write t id cb d => rfl
+  | remove t id cb => rfl
+  | list t a => rfl
+
+/-- no operation of the cached handle creates a dangling symlink (a cache write / removal removes one) -/
+theorem dangling_shrink (s : St) (op : Op) {p : Path} (h : lget (stepC L s op).2.cache.links p = some none) :
+    lget s.cache.links p = some none := by
+  cases op with
+  | read t id => exact refilled_dangling (readFull_state s t id).1 h
+  | readPartial t id cb off len => exact refilled_dangling (readPartial_state s t id cb off len).1 h
+  | write t id cb d =>
+    simp only [stepC, writeBytes] at h
+    split at h
+    · exact cWrite_dangling h
+    · exact h
+  | remove t id cb =>
+    simp only [stepC, remove] at h
+    split at h
+    · exact cRemove_dangling h
+    · exact h
+  | list t a =>
+    simp only [stepC, listWithSize] at h
+    split at h
+    · exact removeNotInList_dangling h
+    · exact h
+
+theorem ops_preserve_coherence {cbOf : Key → Bool} {s : St} (hi : Inv L cbOf s) (op : Op)
+    (hop : OpOK L cbOf s.dirs s.cache op) :
     (stepC L s op).1 = (stepU s.be op).1 ∧ (stepC L s op).2.be = (stepU s.be op).2 ∧ Inv L cbOf (stepC L s op).2 := by
   cases op with
   | read t id =>
@@ -253,9 +487,9 @@ theorem ops_preserve_coherence {cbOf : Key → Bool} {s : St} (hi : Inv L cbOf s
     obtain ⟨h1, h2, h3⟩ := ranged_read_preserves hi t hl off len hlen
     exact ⟨by simp [stepC, stepU, h1], by simp [stepC, stepU, h2], h3⟩
   | write t id cb d =>
-    obtain ⟨hl, hcb⟩ := hop
+    obtain ⟨hl, hcb, hw⟩ := hop
     subst hcb
-    obtain ⟨h1, h2⟩ := write_preserves hi t hl d
+    obtain ⟨h1, h2⟩ := write_preserves hi t hl d (fun h => by rw [hw] at h; cases h)
     exact ⟨rfl, h1, h2⟩
   | remove t id cb =>
     obtain ⟨hl, hcb⟩ := hop
@@ -268,23 +502,93 @@ theorem ops_preserve_coherence {cbOf : Key → Bool} {s : St} (hi : Inv L cbOf s
 
 /-! ### (3) histories -/
 
-/-- **Transparency.** Any history through the cached handle, started in a coherent state, yields the same results
-and the same repository contents as the same history on the bare backend. -/
-theorem transparent {cbOf : Key → Bool} (ops : List Op) (hops : ∀ op ∈ ops, OpOK L cbOf op) (s : St)
+/-- **Transparency.** Any history through the cached handle, started in a coherent state — with ANY set of directories
+and dangling symlinks planted in the cache directory (at entry paths of files written, read, removed or never seen; see
+`OpOK` for the one exception) — yields the same results and the same repository contents as the same history on the bare backend. -/
+theorem transparent {cbOf : Key → Bool} (ops : List Op) (s : St) (hops : ∀ op ∈ ops, OpOK L cbOf s.dirs s.cache op)
     (hi : Inv L cbOf s) :
     (runC L s ops).1 = (runU s.be ops).1 ∧ (runC L s ops).2.be = (runU s.be ops).2 ∧ Inv L cbOf (runC L s ops).2 := by
   induction ops generalizing s with
   | nil => exact ⟨rfl, rfl, hi⟩
   | cons op rest ih =>
     obtain ⟨h1, h2, h3⟩ := ops_preserve_coherence hi op (hops op List.mem_cons_self)
-    obtain ⟨g1, g2, g3⟩ := ih (fun o ho => hops o (List.mem_cons_of_mem _ ho)) (stepC L s op).2 h3
+    have hd := dirs_constant (L := L) s op
+    obtain ⟨g1, g2, g3⟩ := ih (stepC L s op).2
+      (fun o ho => by rw [hd]; exact opOK_mono (fun p hp => dangling_shrink s op hp) (hops o (List.mem_cons_of_mem _ ho))) h3
     simp only [runC, runU]
     rw [h2] at g1 g2
     exact ⟨by rw [h1, g1], g2, g3⟩
 
-/-- An empty cache directory is coherent for every repository. -/
-theorem empty_cache_inv (cbOf : Key → Bool) (be : SpecMap) : Inv L cbOf { be := be, cache := [] } :=
-  ⟨fun _ _ _ _ h => by simp [cReadFull] at h, fun _ _ _ _ => by simp [cReadFull]⟩
+/-! ### (3b) content addressing: no exception at all
+
+The file stored under a key always has the same bytes (`content k` — ids are content hashes; the assumption under which
+the property is stated).  Then a blocked cache write can never leave a wrong entry behind, and transparency holds with
+directories planted ANYWHERE in the cache directory, temp paths included. -/
+
+def CA (content : Key → Bytes) (be : SpecMap) : Prop := ∀ k d, be k = some d → d = content k
+
+def OpCA (L : Nat) (cbOf : Key → Bool) (content : Key → Bytes) : Op → Prop
+  | .read _ id => id.length = L
+  | .readPartial t id cb _ len => id.length = L ∧ cb = cbOf (t, id) ∧ 0 < len
+  | .write t id cb d => id.length = L ∧ cb = cbOf (t, id) ∧ d = content (t, id)
+  | .remove t id cb => id.length = L ∧ cb = cbOf (t, id)
+  | .list _ _ => True
+
+theorem stepU_ca {cbOf : Key → Bool} {content : Key → Bytes} {be : SpecMap} (h : CA content be) (op : Op)
+    (hop : OpCA L cbOf content op) : CA content (stepU be op).2 := by
+  cases op with
+  | read t id => exact h
+  | readPartial t id cb off len => exact h
+  | write t id cb d =>
+    intro k d' hk
+    simp only [stepU, SpecMap.write] at hk
+    by_cases e : k = (t, id)
+    · simp [e] at hk; rw [← hk, e]; exact hop.2.2
+    · simp [e] at hk; exact h k d' hk
+  | remove t id cb =>
+    intro k d' hk
+    simp only [stepU, SpecMap.remove] at hk
+    by_cases e : k = (t, id)
+    · simp [e] at hk
+    · simp [e] at hk; exact h k d' hk
+  | list t a => exact h
+
+theorem ops_preserve_coherence_ca {cbOf : Key → Bool} {content : Key → Bytes} {s : St} (hi : Inv L cbOf s)
+    (hca : CA content s.be) (op : Op) (hop : OpCA L cbOf content op) :
+    (stepC L s op).1 = (stepU s.be op).1 ∧ (stepC L s op).2.be = (stepU s.be op).2 ∧ Inv L cbOf (stepC L s op).2 ∧
+    CA content (stepC L s op).2.be := by
+  have key : (stepC L s op).1 = (stepU s.be op).1 ∧ (stepC L s op).2.be = (stepU s.be op).2 ∧
+      Inv L cbOf (stepC L s op).2 := by
+    cases op with
+    | write t id cb d =>
+      obtain ⟨hl, hcb, hd⟩ := hop
+      subst hcb; subst hd
+      obtain ⟨h1, h2⟩ := write_preserves hi t hl (content (t, id)) (fun _ d0 h0 => hca _ _ (hi.1 t id d0 hl h0))
+      exact ⟨rfl, h1, h2⟩
+    | read t id => exact ops_preserve_coherence hi _ hop
+    | readPartial t id cb off len => exact ops_preserve_coherence hi _ hop
+    | remove t id cb => exact ops_preserve_coherence hi _ hop
+    | list t a => exact ops_preserve_coherence hi _ hop
+  refine ⟨key.1, key.2.1, key.2.2, ?_⟩
+  rw [key.2.1]; exact stepU_ca hca op hop
+
+/-- **Transparency under content addressing**: ANY directories in the cache directory (no condition on `s.dirs`). -/
+theorem transparent_content_addressed {cbOf : Key → Bool} {content : Key → Bytes} (ops : List Op) (s : St)
+    (hops : ∀ op ∈ ops, OpCA L cbOf content op) (hi : Inv L cbOf s) (hca : CA content s.be) :
+    (runC L s ops).1 = (runU s.be ops).1 ∧ (runC L s ops).2.be = (runU s.be ops).2 ∧ Inv L cbOf (runC L s ops).2 := by
+  induction ops generalizing s with
+  | nil => exact ⟨rfl, rfl, hi⟩
+  | cons op rest ih =>
+    obtain ⟨h1, h2, h3, h4⟩ := ops_preserve_coherence_ca hi hca op (hops op List.mem_cons_self)
+    obtain ⟨g1, g2, g3⟩ := ih (stepC L s op).2 (fun o ho => hops o (List.mem_cons_of_mem _ ho)) h3 h4
+    simp only [runC, runU]
+    rw [h2] at g1 g2
+    exact ⟨by rw [h1, g1], g2, g3⟩
+
+/-- An empty cache directory — and one that holds nothing but directories — is coherent for every repository. -/
+theorem empty_cache_inv (cbOf : Key → Bool) (be : SpecMap) (dirs : List Path) :
+    Inv L cbOf { be := be, cache := { files := [], links := [] }, dirs := dirs } :=
+  ⟨fun _ _ _ _ h => by simp [cHit, entryBytes, lget, fget] at h, fun _ _ _ _ => by simp [cHit, entryBytes, lget, fget]⟩
 
 /-! ### (4) a listing restores coherence from an arbitrary cache directory -/
 
@@ -293,10 +597,11 @@ def ListingOf (be : SpecMap) (t : FileType) (answer : List (Name × Nat)) : Prop
   ∀ id n, sizeOf? answer id = some n ↔ ∃ b, be (t, id) = some b ∧ n = b.length
 
 /-- After a listing, every cache entry of that type belongs to a file the repository has, with the same size —
-whatever was in the cache directory before (stale, truncated, longer, foreign, temporary, misplaced files). -/
+whatever was in the cache directory before (stale, truncated, longer, foreign, temporary, misplaced files,
+directories). -/
 theorem list_restores_coherence (s : St) {t : FileType} (ht : isCacheable t = true) {answer : List (Name × Nat)}
     (ha : ListingOf s.be t answer) {id : Name} (hn : isCacheName L id = true) {d : Bytes}
-    (h : cReadFull (listWithSize L s t answer).cache t id = some d) :
+    (h : cHit (listWithSize L s t answer).dirs (listWithSize L s t answer).cache t id = some d) :
     ∃ b, (listWithSize L s t answer).be (t, id) = some b ∧ b.length = d.length := by
   unfold listWithSize at h ⊢
   simp only [ht, if_true] at h ⊢
@@ -306,8 +611,9 @@ theorem list_restores_coherence (s : St) {t : FileType} (ht : isCacheable t = tr
 /-- The property's last sentence. -/
 theorem no_stale_after_listing (s : St) {t : FileType} (ht : isCacheable t = true) {answer : List (Name × Nat)}
     (ha : ListingOf s.be t answer) {id : Name} (hn : isCacheName L id = true)
-    (hgone : s.be (t, id) = none) : cReadFull (listWithSize L s t answer).cache t id = none := by
-  cases h : cReadFull (listWithSize L s t answer).cache t id with
+    (hgone : s.be (t, id) = none) :
+    cHit (listWithSize L s t answer).dirs (listWithSize L s t answer).cache t id = none := by
+  cases h : cHit (listWithSize L s t answer).dirs (listWithSize L s t answer).cache t id with
   | none => rfl
   | some d =>
     obtain ⟨b, hb, _⟩ := list_restores_coherence s ht ha hn h
@@ -316,14 +622,15 @@ theorem no_stale_after_listing (s : St) {t : FileType} (ht : isCacheable t = tru
 
 /-- Cache files are truncated / extended / stale copies, never same-size corruptions (outside the statement). -/
 def Honest (s : St) (t : FileType) : Prop :=
-  ∀ id d b, cReadFull s.cache t id = some d → s.be (t, id) = some b → d.length = b.length → d = b
+  ∀ id d b, cHit s.dirs s.cache t id = some d → s.be (t, id) = some b → d.length = b.length → d = b
 
 theorem list_restores_coherence_honest (s : St) {t : FileType} (ht : isCacheable t = true)
     {answer : List (Name × Nat)} (ha : ListingOf s.be t answer) (hh : Honest s t) {id : Name}
-    (hn : isCacheName L id = true) {d : Bytes} (h : cReadFull (listWithSize L s t answer).cache t id = some d) :
+    (hn : isCacheName L id = true) {d : Bytes}
+    (h : cHit (listWithSize L s t answer).dirs (listWithSize L s t answer).cache t id = some d) :
     (listWithSize L s t answer).be (t, id) = some d := by
   obtain ⟨b, hb, hlen⟩ := list_restores_coherence s ht ha hn h
-  have h0 : cReadFull s.cache t id = some d := by
+  have h0 : cHit s.dirs s.cache t id = some d := by
     unfold listWithSize at h; simp only [ht, if_true] at h; exact removeNotInList_sub h
   have hb' : s.be (t, id) = some b := hb
   rw [hh id d b h0 hb' hlen.symm]; exact hb
@@ -332,56 +639,45 @@ theorem list_restores_coherence_honest (s : St) {t : FileType} (ht : isCacheable
 
 /-- **stale_cache_read_after_listing.**  Whatever another process (an uncached handle) did to the repository since the
 cache was filled — files removed, added, replaced by files of another size: ANY repository `s.be` against ANY cache
-directory `s.cache` — once the cached handle has listed type `t`, every whole-file read of that type through the cached
-handle returns exactly what the repository holds (an error for a file that is gone).  `Honest`: a cache entry of the same
-id and size as the repository file has its bytes (ids are content hashes). -/
+directory `s.cache`, `s.dirs` (directories at entry paths included) — once the cached handle has listed type `t`, every
+whole-file read of that type through the cached handle returns exactly what the repository holds (an error for a file
+that is gone).  `Honest`: a cache entry of the same id and size as the repository file has its bytes (ids are content
+hashes). -/
 theorem stale_cache_read_after_listing (s : St) {t : FileType} (ht : isCacheable t = true)
     {answer : List (Name × Nat)} (ha : ListingOf s.be t answer) (hh : Honest s t) {id : Name}
     (hn : isCacheName L id = true) :
-    (readFull (listWithSize L s t answer) t id).1 = beReadFull s.be t id := by
-  have hbe : (listWithSize L s t answer).be = s.be := rfl
-  unfold readFull
-  simp only [ht, if_true]
-  cases hc : cReadFull (listWithSize L s t answer).cache t id with
-  | some d =>
-    have := list_restores_coherence_honest s ht ha hh hn hc
-    rw [hbe] at this
-    simp [beReadFull, this]
-  | none =>
-    rw [hbe]
-    cases hb : s.be (t, id) <;> simp [beReadFull, hb]
+    (readFull (listWithSize L s t answer) t id).1 = beReadFull s.be t id :=
+  entry_coherent_read_equiv (s := listWithSize L s t answer)
+    (fun _ hc => list_restores_coherence_honest s ht ha hh hn hc)
 
 /-- … and leaves the repository untouched -/
 theorem stale_cache_read_keeps_repository (s : St) (t : FileType) (answer : List (Name × Nat)) (id : Name) :
-    (readFull (listWithSize L s t answer) t id).2.be = s.be := by
-  unfold readFull
-  split
-  · split
-    · rfl
-    · split <;> rfl
-  · rfl
+    (readFull (listWithSize L s t answer) t id).2.be = s.be :=
+  (refilled_be (readFull_state (listWithSize L s t answer) t id).1).1
 
 /-! ### (5) truncated entries -/
 
 /-- A ranged read that a (truncated) cache entry cannot serve is answered from the repository, and the entry is
-replaced by the repository's bytes. -/
+replaced by the repository's bytes (when nothing blocks the temp path). -/
 theorem truncated_entry_falls_through (s : St) (t : FileType) {id : Name} (hl : id.length = L) (cb : Bool)
     (hon : (cb || isCacheable t) = true) {d' d : Bytes} (off len : Nat)
-    (hc : cReadFull s.cache t id = some d') (hb : s.be (t, id) = some d)
+    (hc : cHit s.dirs s.cache t id = some d') (hb : s.be (t, id) = some d) (hw : tmpBlocked s.dirs s.cache t id = false)
     (hlen : 0 < len) (hshort : d'.length < off + len) (hin : off + len ≤ d.length) :
     (readPartial s t id cb off len).1 = .ok ((d.drop off).take len) ∧
-    cReadFull (readPartial s t id cb off len).2.cache t id = some d := by
+    cHit (readPartial s t id cb off len).2.dirs (readPartial s t id cb off len).2.cache t id = some d := by
+  have hr : ¬ (off + len ≤ d'.length) := by omega
+  have hwr : writes s.dirs s.cache t id = true := by
+    simp only [tmpBlocked, Bool.or_eq_false_iff] at hw
+    simp [writes, hw.1, hw.2, (cHit_some hc).1, (cHit_some hc).2.1]
   unfold readPartial
-  unfold cReadFull at hc
-  have hr : ¬ (len = 0 ∨ off + len ≤ d'.length) := by omega
-  simp only [hon, if_true, cReadPartial, hc, hr, if_false, hb, hin]
-  exact ⟨trivial, by rw [cReadFull_cWrite s.cache hl hl d]; simp⟩
+  simp only [hon, if_true, cReadPartial_of_hit hc off hlen, hr, if_false, readPartialThrough, hb, hin]
+  exact ⟨trivial, by rw [cHit_cWrite s.dirs s.cache hl hl d]; simp [hwr]⟩
 
 /-- `read_full` has no size check: what lies at the entry's path is served — before a listing a stale or truncated
 entry is visible (the reason (4) is needed; repository commands list before they read). -/
 theorem read_full_serves_any_entry (s : St) {t : FileType} (ht : isCacheable t = true) (id : Name) (d' : Bytes)
-    (hc : cReadFull s.cache t id = some d') : (readFull s t id).1 = .ok d' := by
-  unfold readFull; simp [ht, hc]
+    (hc : cHit s.dirs s.cache t id = some d') : (readFull s t id).1 = .ok d' := by
+  unfold readFull; simp [ht, (cReadFull_hit_iff _ _ _ _ _).2 hc]
 
 /-! ### non-vacuity / witnesses -/
 
@@ -396,15 +692,70 @@ them is an entry any more, the misplaced and the temp file are left alone (they 
 example :
     let c : FS := [([nSnapshots, ['a', 'a'], idB], [9]), ([nSnapshots, ['a', 'a'], idA], [1, 2]),
                    ([nSnapshots, idB], [7]), ([nSnapshots, ['a', 'a'], idA ++ tmpSuffix], [5])]
-    let s' := listWithSize 64 { be := be1, cache := c } .snapshot [(idA, 4)]
-    s'.cache = [([nSnapshots, idB], [7]), ([nSnapshots, ['a', 'a'], idA ++ tmpSuffix], [5])] := by decide
+    let s' := listWithSize 64 { be := be1, cache := { files := c } } .snapshot [(idA, 4)]
+    s'.cache.files = [([nSnapshots, idB], [7]), ([nSnapshots, ['a', 'a'], idA ++ tmpSuffix], [5])] := by decide
 /-- a truncated entry: ranged read beyond it falls through and repairs it; `read_full` before that serves it -/
 example :
-    let s : St := { be := be1, cache := [([nSnapshots, ['a', 'a'], idA], [1, 2])] }
+    let s : St := { be := be1, cache := { files := [([nSnapshots, ['a', 'a'], idA], [1, 2])] } }
     (readFull s .snapshot idA).1 = .ok [1, 2] ∧
     (readPartial s .snapshot idA false 1 3).1 = .ok [2, 3, 4] ∧
-    cReadFull (readPartial s .snapshot idA false 1 3).2.cache .snapshot idA = some [1, 2, 3, 4] := by decide
+    cHit [] (readPartial s .snapshot idA false 1 3).2.cache .snapshot idA = some [1, 2, 3, 4] := by decide
 /-- the repaired code: a range past the end of the file is an error through the cache as well -/
-example : (readPartial { be := be1, cache := [] } .snapshot idA false 2 3).1 = .err := by decide
+example : (readPartial { be := be1, cache := { files := [] } } .snapshot idA false 2 3).1 = .err := by decide
+/-- a DIRECTORY at the entry path of `idA` (replayed on the real code: `corpus/C19/witnesses.ops`): whole and ranged reads
+are answered from the repository, each leaves the temp file behind, the listing and a removal leave everything as it
+is, an empty range is "served" by the directory -/
+example :
+    let s : St := { be := be1, cache := { files := [] }, dirs := [cpath .snapshot idA] }
+    (readFull s .snapshot idA).1 = .ok [1, 2, 3, 4] ∧
+    (readFull s .snapshot idA).2.cache.files = [(ctmp .snapshot idA, [1, 2, 3, 4])] ∧
+    (readPartial s .snapshot idA false 1 2).1 = .ok [2, 3] ∧
+    (readPartial s .snapshot idA false 2 3).1 = .err ∧
+    (readPartial s .snapshot idA false 9 0).1 = .ok [] ∧
+    (listWithSize 64 (readFull s .snapshot idA).2 .snapshot [(idA, 4)]).cache.files = [(ctmp .snapshot idA, [1, 2, 3, 4])] ∧
+    (remove (readFull s .snapshot idA).2 .snapshot idA false).cache.files = [(ctmp .snapshot idA, [1, 2, 3, 4])] := by decide
+/-- a DANGLING SYMLINK at the entry path of `idA` (replayed on the real code): a miss; the read refills the cache, which
+replaces the link by the entry; at the temp path: one cache write fails and removes the link, the next one works -/
+example :
+    let s : St := { be := be1, cache := { files := [], links := [(cpath .snapshot idA, none)] } }
+    (readFull s .snapshot idA).1 = .ok [1, 2, 3, 4] ∧
+    (readFull s .snapshot idA).2.cache.files = [(cpath .snapshot idA, [1, 2, 3, 4])] ∧
+    (readFull s .snapshot idA).2.cache.links = [] ∧
+    (listWithSize 64 s .snapshot [(idA, 4)]).cache.links = [(cpath .snapshot idA, none)] := by decide
+/-- FIXED (follow_links): a symlink at the entry path of `idB` to a stale copy `[9]`; the repository no longer has `idB`.
+Before a listing it is served (like any stale entry); the listing removes it; then the read fails like the uncached one.
+A symlink to the right bytes of `idA` stays.  Replayed on the real code (`corpus/C19/witnesses.ops`). -/
+example :
+    let s : St := { be := be1, cache := { files := [], links := [(cpath .snapshot idB, some [9]),
+                                                                  (cpath .snapshot idA, some [1, 2, 3, 4])] } }
+    (readFull s .snapshot idB).1 = .ok [9] ∧
+    (listWithSize 64 s .snapshot [(idA, 4)]).cache.links = [(cpath .snapshot idA, some [1, 2, 3, 4])] ∧
+    (readFull (listWithSize 64 s .snapshot [(idA, 4)]) .snapshot idB).1 = .err ∧
+    (readFull (listWithSize 64 s .snapshot [(idA, 4)]) .snapshot idA).1 = .ok [1, 2, 3, 4] := by decide
+/-- a symlink to a file at the TEMP path: the cache write goes THROUGH the link (the file it points to now holds the new
+bytes) and the link becomes the entry -/
+example :
+    let s : St := { be := be1, cache := { files := [], links := [(ctmp .snapshot idA, some [7, 7])] } }
+    (readFull s .snapshot idA).2.cache.links = [(cpath .snapshot idA, some [1, 2, 3, 4])] ∧
+    (readFull s .snapshot idA).2.cache.files = [] := by decide
+example :
+    let s : St := { be := be1, cache := { files := [], links := [(ctmp .snapshot idA, none)] } }
+    (readFull s .snapshot idA).2.cache.files = [] ∧ (readFull s .snapshot idA).2.cache.links = [] ∧
+    (readFull (readFull s .snapshot idA).2 .snapshot idA).2.cache.files = [(cpath .snapshot idA, [1, 2, 3, 4])] := by decide
+/-- a regular file where `snapshots/aa` belongs (replayed on the real code): reads from the repository, cache untouched;
+the same with a dangling symlink there -/
+example :
+    let s : St := { be := be1, cache := { files := [([nSnapshots, ['a', 'a']], [7])] } }
+    (readFull s .snapshot idA).1 = .ok [1, 2, 3, 4] ∧ (readFull s .snapshot idA).2.cache.files = s.cache.files ∧
+    (readPartial s .snapshot idA false 1 2).1 = .ok [2, 3] ∧
+    (writeBytes s .snapshot idA false [1, 2, 3, 4]).cache.files = s.cache.files ∧
+    cReadFull [] s.cache .snapshot idA = .error ∧
+    cReadFull [] { files := [], links := [([nSnapshots, ['a', 'a']], none)] } .snapshot idA = .miss := by decide
+/-- the exception of `OpOK`: a directory at the TEMP path blocks the cache write; an entry that exists is then not
+updated by an overwrite with other bytes (which content addressing excludes) and the cached read differs -/
+example :
+    let s : St := { be := be1, cache := { files := [(cpath .snapshot idA, [1, 2, 3, 4])] }, dirs := [ctmp .snapshot idA] }
+    (readFull (writeBytes s .snapshot idA false [7]) .snapshot idA).1 = .ok [1, 2, 3, 4] ∧
+    beReadFull (writeBytes s .snapshot idA false [7]).be .snapshot idA = .ok [7] := by decide
 
 end Rustic.Props.C19
